@@ -4,7 +4,7 @@
    list os of API operations, each carrying the adversary's fault choices (result of the backend Mount,
    ids whose Check fails, ids whose Unmount fails). *)
 From Coq Require Import List Arith Bool.
-From SV Require Import Model.Snap Proofs.SnapBase Proofs.SnapPrim Proofs.SnapInv Proofs.Snap.
+From SV Require Import Model.Snap Model.SnapConc Proofs.SnapBase Proofs.SnapPrim Proofs.SnapInv Proofs.Snap Proofs.SnapConc.
 Import ListNotations.
 
 (* Metadata and directories in step, in every reachable state: while the snapshotter is open every snapshot
@@ -15,7 +15,7 @@ Theorem C08_metadata_and_directories_in_step :
     (closed s = false -> forall n i, lookup (meta s) n = Some i -> In (DId (i_id i)) (dirs s)) /\
     (forall d, In d (dirs s) -> exists id, d = DId id /\ id <= seq s) /\
     (forall n i n' i', lookup (meta s) n = Some i -> lookup (meta s) n' = Some i' -> i_id i = i_id i' -> n = n').
-Proof. intros a os s. exact (live_dirs s (reach_inv a os)). Qed.
+Proof. intros a os s. exact (live_dirs s (reach_inv a os) (reach_nt a os)). Qed.
 Print Assumptions C08_metadata_and_directories_in_step.
 
 (* After a Cleanup that returned without error (whatever Unmount failures), and after every successful
@@ -92,6 +92,14 @@ Theorem C08_mounts_only_if_available :
 Proof. intros a os o m s. exact (step_avail s o m (reach_inv a os)). Qed.
 Print Assumptions C08_mounts_only_if_available.
 
+(* ... and conversely: in every state (reachable or not) a call during which any connectivity Check fails returns
+   Unavailable — never mounts, never another error. Together: mounts are handed out iff no Check of the call failed,
+   and every remote layer of the chain was checked. *)
+Theorem C08_failed_check_is_unavailable :
+  forall s o id, In (EvCheck id false) (step_events s o) -> snd (step s o) = RErr EUnavail.
+Proof. exact step_check_fail. Qed.
+Print Assumptions C08_failed_check_is_unavailable.
+
 (* Unmount discipline, for the events of every call in every reachable state: an Unmount that hits a live
    backend mount happens only during Close or on the directory of an id that is no longer in metadata when
    the call returns (its snapshot was removed), and every directory removal comes directly after the backend
@@ -140,6 +148,78 @@ Theorem C08_remote_has_mount :
     mount_count s id = 1 /\ In (DId id) (dirs s).
 Proof. exact remote_has_mount. Qed.
 Print Assumptions C08_remote_has_mount.
+
+(* ===================== concurrent callers (Model/SnapConc.v) =====================
+   Every API call is cut into its atomic segments (bolt write transaction / read transaction / one backend call /
+   one RemoveAll); [cexec (cinit a) sched] runs an arbitrary list [sched] of [Start t o] (thread t enters call o)
+   and [Step t] (thread t runs its next segment): every interleaving of any number of callers that bolt's
+   single-writer rule permits. Run by one thread alone the machine is compared with the implementation on every
+   check run (second harness entry of props.d/C08.py). *)
+
+(* Metadata and directories stay in step under every schedule: every snapshot in metadata has its directory (while
+   open), no directory carries an id the sequence has not handed out, ids are never shared. (A temp directory of
+   a failed createSnapshot can be visible until its deferred cleanup ran: that clause is sequential only.) *)
+Theorem C08_conc_metadata_and_directories_in_step :
+  forall a sched, let s := base (cexec (cinit a) sched) in
+    (closed s = false -> forall n i, lookup (meta s) n = Some i -> In (DId (i_id i)) (dirs s)) /\
+    (forall id, In (DId id) (dirs s) -> id <= seq s) /\
+    (forall n i n' i', lookup (meta s) n = Some i -> lookup (meta s) n' = Some i' -> i_id i = i_id i' -> n = n').
+Proof. exact conc_live_dirs. Qed.
+Print Assumptions C08_conc_metadata_and_directories_in_step.
+
+(* Unmount discipline under every schedule, for the events of every schedule step: an Unmount that hits a live
+   backend mount is part of Close or concerns a DEAD id (handed out, no longer — and never again — the id of a
+   snapshot in metadata) at that very moment; a directory is removed only by the thread whose previous segment was
+   the backend Unmount of that same directory (frame FRm d), and that Unmount segment is followed, in that thread,
+   by exactly that removal. *)
+Theorem C08_conc_unmount_discipline :
+  forall a sched x, let cs := cexec (cinit a) sched in
+    (forall d ok, In (EvUnmount d true ok) (cstep_events cs x) ->
+       (exists t ub, x = Start t (Close ub)) \/ exists id, d = DId id /\ dead (base cs) id) /\
+    (forall d, In (EvRmDir d) (cstep_events cs x) ->
+       (exists t ub, x = Start t (Close ub)) \/
+       exists t ds ub r, x = Step t /\ frame_of (frames cs) t = Some (FRm d ds ub r)) /\
+    (forall t d ds ub r, frame_of (frames cs) t = Some (FClean (d :: ds) ub r) ->
+       exists lv ok, cstep_events cs (Step t) = [EvUnmount d lv ok] /\
+                     frame_of (frames (cstep cs (Step t))) t = Some (FRm d ds ub r)).
+Proof. exact conc_unmount_discipline. Qed.
+Print Assumptions C08_conc_unmount_discipline.
+
+(* Availability under every schedule: a call whose checks are all done returns mounts iff all of them passed, and
+   then every id it had to check got [EvCheck id true] after the call read the chain ([mark]) and is not in the
+   call's failing set; and the chain read hands the call every remote-labelled snapshot on the chain. *)
+Theorem C08_conc_mounts_only_if_available :
+  forall a sched t sn done ok cbad mark, let cs := cexec (cinit a) sched in
+    frame_of (frames cs) t = Some (FChecks sn done [] ok cbad mark) ->
+    rets (cstep cs (Step t)) = (t, if ok then RMounts (mount_shape sn) else RErr EUnavail) :: rets cs /\
+    (ok = true -> forall id, In id done ->
+       In (EvCheck id true) (skipn mark (log (base cs))) /\ ~ In id cbad).
+Proof. exact conc_available. Qed.
+Print Assumptions C08_conc_mounts_only_if_available.
+
+Theorem C08_conc_chain_read_complete :
+  forall cs t sn k cbad,
+    frame_of (frames cs) t = Some (FChain sn (Some k) cbad) ->
+    (exists ids, frame_of (frames (cstep cs (Step t))) t = Some (FChecks sn [] ids true cbad (length (log (base cs)))) /\
+       forall n i, on_chain (meta (base cs)) k n i -> l_remote (i_labels i) = true -> In (i_id i) ids)
+    \/ rets (cstep cs (Step t)) = (t, RErr EUnavail) :: rets cs.
+Proof. exact conc_chain_read. Qed.
+Print Assumptions C08_conc_chain_read_complete.
+
+(* Non-vacuity of the concurrent machine: while thread 0's Prepare-with-target sits between its backend Mount and
+   its internal commit, thread 2 starts Mounts of the active snapshot k2 and thread 1 removes k2 (metadata, Unmount,
+   RemoveAll as three separate steps) before thread 2 continues; results so far and the mount table. *)
+Example C08_conc_nonvacuous :
+  let pre := [Start 0 (Prepare 0 None (mkL (Some 1) false 0) true []); Step 0; Step 0; Step 0;
+              Start 0 (Prepare 2 (Some 1) no_labels true []); Step 0; Step 0; Step 0] in
+  let sched := pre ++ [Start 0 (Prepare 3 (Some 1) (mkL (Some 4) false 0) true []); Step 0; Step 0;
+                       Start 2 (Mounts 2 []); Start 1 (Remove 2 []);
+                       Step 1; Step 0; Step 1; Step 1] in
+  let cs := cexec (cinit false) sched in
+  frames cs = [(2, FChain (mkSnap 2 KActive [1]) (Some 2) [])] /\
+  rets cs = [(1, ROk); (0, RTargetExists); (0, RMounts (MOverlay (Some 2) [1])); (0, RTargetExists)] /\
+  map fst (mounts (base cs)) = [3; 1].
+Proof. vm_compute. repeat split. Qed.
 
 (* Non-vacuity: a remote chain k1 <- k2 built by two Prepare-with-target calls, an active snapshot on top:
    both layers are committed, remote, mounted exactly once; Mounts of the active snapshot lists the lower
